@@ -162,7 +162,7 @@ func genInventory(c *ctx) (string, error) {
 							}
 						}
 					case *ast.SliceExpr:
-						site("slice", exprString(c, x), g.guardOfSlice(x, stack), x.X)
+						site("slice", exprString(c, x), g.guardOfSlice(x, stack, fd), x.X)
 					case *ast.StarExpr:
 						if tv, ok := p.TypesInfo.Types[x]; ok && !tv.IsType() {
 							site("deref", exprString(c, x), g.guardOfDeref(x, stack), x.X)
